@@ -16,7 +16,7 @@ add("C01", "other", HYB + "PROVED: the SQL text pieces of seven operator transla
     PYVC_TB + "; " + BOUNDED_TB, "contract-based deductive verification of the SQL text generation glue (VCs from the real AST, z3) + run-time contract on the real function over an exhaustively enumerated small scope (bounded stand-in) for the semantics", "§5 C01")
 add("C03", "other", HYB + "PROVED: for table / order_rows / select_columns / rename_columns / select_rows steps both executors hand their frame library the node's own arguments (declared columns in order; sort keys with ascending flags from `reverse`; limit). BOUNDED (the meaning lives in polars and pandas): contract `not raises ⇒ frames_equiv(polars result, pandas result)` on the real Polars executor for eager/lazy inputs and both lazy-eval modes, over the enumerated corpus.",
     PYVC_TB + "; frame-library calls under assumed contracts; " + BOUNDED_TB, "contract-based deductive verification of the executors' step glue (VCs from the real AST, z3) + run-time contract on the real function over an enumerated small scope (bounded stand-in) for the semantics", "§5 C03")
-add("C06", "proof", "the merge obligation `ext(merged,T) = ext(ops2, ext(ops1,T))` for all assignment maps and tables is discharged by z3 from the real body of try_to_merge_ops (6 paths), with finite-scope refutation + native replay when it fails; builder forwarding / collapsing obligations as listed in the evidence.",
+add("C06", "proof", "the merge obligation `ext(merged,T) = ext(ops2, ext(ops1,T))` for all assignment maps and tables is discharged by z3 from the real body of try_to_merge_ops (6 paths), with finite-scope refutation + native replay when it fails; the merge DECISION of extend_parsed_ (region contract on the real statements: merged only for equal partition, order list, reverse and windowed-ness); builder forwarding / collapsing obligations (10 builders, every argument through an eliminated order_rows) as listed in the evidence.",
     PYVC_TB + "; ghost semantics: simultaneous-assignment extend, ev(e,T) depends only on cols(e) ∪ window columns (frame axiom)", "contract-based deductive verification: VCs generated from the real AST, discharged by z3/cvc5; counter-models replayed natively", "§5 C06")
 add("C08", "other", HYB + "PROVED for all inputs: Pandas and Polars _table_step always narrow/order the input to the declared columns (eager or lazy, extra or permuted input columns), _select_columns_step and _rename_columns_step hand the library exactly the node's arguments; BOUNDED: declared columns = returned columns at every node of every enumerated pipeline on Pandas, Polars, SQLite.",
     PYVC_TB + "; frame-library calls under assumed contracts; " + BOUNDED_TB, "contract-based deductive verification of the column-shaping glue (VCs from the real AST, z3) + run-time contracts over an enumerated scope", "§5 C08")
@@ -37,7 +37,7 @@ add("C07", "other", HYB + "PROVED for all inputs: every replace_leaves (10 node 
     PYVC_TB + "; " + BOUNDED_TB, "contract-based deductive verification of the rebuild obligations (VCs from the real AST, z3) + run-time contracts over an enumerated scope for the engine-dependent part", "§5 C07")
 add("C09", "other", HYB + "PROVED: SQLModel.project_to_near_sql names ALL group keys of the node in GROUP BY (quoted, in order, whatever later steps still use), every group key is a selected term, and there is no GROUP BY exactly without group keys; Pandas _select_rows_step returns a fresh index-free copy of the selected rows (what a following windowed extend relies on). BOUNDED: row counts of project / windowed extend against distinct key tuples of the materialised input (null = a key of its own, empty inputs, outputs overwritten or dropped later) on Pandas, Polars, SQLite.",
     PYVC_TB + "; " + BOUNDED_TB, "contract-based deductive verification of the glue / text-generation obligations (VCs from the real AST, z3) + run-time contracts over an enumerated scope for the engine-dependent part", "§5 C09")
-add("C10", "proof", "for each of the 13 node classes: need_i(N,U) ⊆ columns_used_from_sources(U)[i] ⊆ columns(source_i) and one entry per source, for all nodes and all requested sets (77 obligations incl. two accumulation-loop invariants). The DAG-wide fixpoint and the tie of `need` to the executors are bounded (perturb every unreported column; narrow the descriptions).",
+add("C10", "proof", "for each of the 13 node classes: need_i(N,U) ⊆ columns_used_from_sources(U)[i] ⊆ columns(source_i) and one entry per source (incl. two accumulation-loop invariants); the recursion step columns_used_implementation_ is proved against the contract of its own recursive calls (records only grow, the node records the request, every source is re-asked with what the node needs given its FULL record). The induction over the DAG and the top-level columns_used() wrapper are a paper argument / bounded (perturb every unreported column in three ways; narrow the descriptions).",
     PYVC_TB + "; need_i is a spec function from the operator documentation; constructor facts as preconditions", "contract-based deductive verification (VCs from the real AST, z3) with a bounded perturbation ride-along", "§5 C10")
 add("C11", "proof", "IFF characterisation of all 13 _equiv_nodes, of ViewRepresentation.__eq__ (loop + recursion through its own contract), RecordMap.__eq__, RecordSpecification.__eq__ against the reviewed semantic field sets (41 obligations); TableDescription.__eq__ and constant/order comparisons are recorded findings with native witnesses. Bounded all-pairs search for equal-but-different pipelines rides along.",
     PYVC_TB + "; Term.is_equal decides an equivalence on expressions (its own defects only in the bounded run); F(C) reviewed lists", "contract-based deductive verification (VCs from the real AST, z3) + bounded all-pairs search", "§5 C11")
